@@ -43,12 +43,28 @@ def is_window_scanner_index(model: Model, mr, e: Esc) -> bool:
         return False
     if not isinstance(node, ast.Subscript) or not isinstance(node.value, ast.Name):
         return False
-    v = node.value.id
+    return _is_window(model, mr, fi, node.value.id, 0)
+
+
+def _is_window(model: Model, mr, fi: FuncInfo, v: str, depth: int) -> bool:
+    """v is the scanner's window: a local cut out of a memoryview with a slice, or a parameter that every call site in the
+    module binds to such a window"""
     for n in walk_no_nested(fi.node):
         if isinstance(n, ast.Assign) and any(isinstance(t, ast.Name) and t.id == v for t in n.targets):
             val = n.value
             if isinstance(val, ast.Subscript) and isinstance(val.slice, ast.Slice) and mr.r.strip_opt(mr.r.type_of(val.value, fi)) == ("prim", "memoryview"):
                 return True
+    if v in fi.params() and depth < 3 and not any(isinstance(x, ast.Name) and x.id == v and isinstance(x.ctx, ast.Store) for x in walk_no_nested(fi.node)):
+        idx = fi.params().index(v)
+        sites = []
+        for cq, cfi in model.functions.items():
+            if cfi.module != fi.module or isinstance(cfi.node, ast.Lambda):
+                continue
+            for c in walk_no_nested(cfi.node):
+                if isinstance(c, ast.Call) and isinstance(c.func, ast.Name) and model.resolve_name(cfi.module, c.func.id) == fi.qualname:
+                    a = c.args[idx] if idx < len(c.args) else next((k.value for k in c.keywords if k.arg == v), None)
+                    sites.append((cfi, a))
+        return bool(sites) and all(isinstance(a, ast.Name) and _is_window(model, mr, cfi, a.id, depth + 1) for cfi, a in sites)
     return False
 
 
@@ -349,16 +365,24 @@ def guard_rule(model: Model, mr, run: Run, reach: List[str]) -> None:
             if not isinstance(c, ast.Call):
                 continue
             q = model.resolve_name(fi.module, norm(c.func)) if isinstance(c.func, (ast.Name, ast.Attribute)) else None
-            if q not in filt_classes:
-                continue
-            fields = [f for f in model.dataclass_fields(q) if f.init]
-            bound: Dict[str, ast.expr] = {}
-            for f, a in zip(fields, c.args):
+            qs = [q] if q in filt_classes else []
+            if not qs and isinstance(c.func, (ast.Subscript, ast.Call)):
+                # a constructor picked from a dispatch table: every class in the table is built from these arguments
+                try:
+                    res = mr.r.callees(c, fi, None)
+                except Exception:
+                    res = ("unknown",)
+                if res[0] == "multi":
+                    qs = [r_[1] for r_ in res[1] if r_[0] == "ctor" and r_[1] in filt_classes]
+            for q in qs:
+              fields = [f for f in model.dataclass_fields(q) if f.init]
+              bound: Dict[str, ast.expr] = {}
+              for f, a in zip(fields, c.args):
                 bound[f.name] = a
-            for k in c.keywords:
+              for k in c.keywords:
                 if k.arg:
                     bound[k.arg] = k.value
-            for fname in ("attribute", "rule"):
+              for fname in ("attribute", "rule"):
                 if fname in bound:
                     n += 1
                     ok, why = validated(model, mr, fi, bound[fname], c)
